@@ -752,7 +752,7 @@ def arc_sense(repo: Repo) -> RuleRun:
     points swapped, as Operation.mirror does for side edges by inverting the operation) - and their product must be det(Q) in every
     carrier of edge data. The rule evaluates the carrier's transformation on a model whose points and axis record what is applied
     to them, then multiplies the three signs."""
-    r = RuleRun(PROP, "C09.ARC-SENSE", floor=6, what="sense of rotation of angle-and-axis edges: (axis sign) x (angle sign) x (traversal direction) equals the determinant of the transformation, for edges of a face, of an operation's faces and of its sides")
+    r = RuleRun(PROP, "C09.ARC-SENSE", floor=10, what="sense of rotation of angle-and-axis edges: (axis sign) x (angle sign) x (traversal direction) equals the determinant of the transformation, for edges of a face, of an operation's faces and of its sides")
     r.exhaustive = True
     point_cls = repo.cls("construct.point.Point")
     angle_cls = repo.cls("construct.edges.Angle")
@@ -771,10 +771,25 @@ def arc_sense(repo: Repo) -> RuleRun:
         e.set("axis", tracked(f"{name}.axis", repo.cls("construct.point.Vector")))
         return e
 
+    spline_cls = repo.cls("construct.edges.Spline")
+    array_cls = repo.cls("construct.array.Array")
+    dcurve_cls = repo.cls("construct.curves.discrete.DiscreteCurve")
+
+    def mk_spline(name):
+        """a spline whose points run q0, q1, q2 from the edge's first to its second end point"""
+        e = Obj(name, cls=spline_cls)
+        arr = Obj(f"{name}.array", cls=array_cls)
+        arr.set("points", [Sym(f"{name}.q{i}") for i in range(3)])
+        arr.set("log", [])
+        curve = Obj(f"{name}.curve", cls=dcurve_cls)
+        curve.set("array", arr)
+        e.set("curve", curve)
+        return e
+
     def mk_face(name):
         face = Obj(name, cls=face_cls)
         face.set("points", [tracked(f"{name}.p{i}") for i in range(4)])
-        face.set("edges", [mk_angle(f"{name}.e0")] + [Obj(f"{name}.e{i}", cls=line_cls) for i in range(1, 4)])
+        face.set("edges", [mk_angle(f"{name}.e0"), mk_spline(f"{name}.e1")] + [Obj(f"{name}.e{i}", cls=line_cls) for i in range(2, 4)])
         face.set("projected_to", None)
         face.set("patch_name", None)
         return face
@@ -782,11 +797,29 @@ def arc_sense(repo: Repo) -> RuleRun:
     def hook(ev, call, name):
         if isinstance(call.func, ast.Attribute) and call.func.attr in ("rotate", "mirror", "scale", "translate"):
             recv = ev.eval(call.func.value)
-            if isinstance(recv, Obj) and recv._cls is not None and point_cls in repo.mro(recv._cls) and recv.has("log"):
+            if isinstance(recv, Obj) and recv._cls is not None and (point_cls in repo.mro(recv._cls) or recv._cls is array_cls) and recv.has("log"):
                 args = [ev.eval(a) for a in call.args] + [ev.eval(k.value) for k in call.keywords]
                 recv.get("log").append((call.func.attr, args))
                 return recv
+        if name in ("np.flip", "numpy.flip", "np.flipud", "numpy.flipud") and call.args:
+            v = ev.eval(call.args[0])
+            if isinstance(v, list):
+                return list(reversed(v))
         return NO_MATCH
+
+    def spline_order(edge, kind):
+        """+1 / -1: the points are listed in the original / the reversed order afterwards; the array itself transformed once"""
+        arr = edge.get("curve").get("array")
+        names = [repr(x) for x in arr.get("points")]
+        base = [f"{edge._name}.q{i}" for i in range(3)]
+        applied = [w for w, _ in arr.get("log")]
+        if applied != [kind]:
+            return None, f"the point array of the spline is subjected to {applied} (expected exactly one {kind})"
+        if names == base:
+            return 1, ""
+        if names == list(reversed(base)):
+            return -1, ""
+        return None, f"the spline's points become {names}"
 
     def axis_sign(edge, kind):
         """+1 / -1: the axis is Q(axis) / -Q(axis) afterwards; None with a reason otherwise"""
@@ -817,13 +850,20 @@ def arc_sense(repo: Repo) -> RuleRun:
         ends = (face.get("points")[j], face.get("points")[(j + 1) % 4])
         direction = 1 if ends == (p0, p1) else -1 if ends == (p1, p0) else 0
         _judge_sense(r, m, f"Face.{kind}: edge of the face", kind, det, direction, *axis_sign(edge, kind))
+        sp = [e for e in face.get("edges") if isinstance(e, Obj) and e._cls is spline_cls]
+        r.require(len(sp) == 1, f"Face.{kind}: the spline edge vanished from the face")
+        j = face.get("edges").index(sp[0])
+        q0, q1 = face.get("points")[j]._name, face.get("points")[(j + 1) % 4]._name
+        direction = 1 if (q0, q1) == ("face.p1", "face.p2") else -1 if (q0, q1) == ("face.p2", "face.p1") else 0
+        _judge_order(r, m, f"Face.{kind}: spline edge of the face", kind, direction, *spline_order(sp[0], kind))
         # (2) an operation: edges of its faces and of its sides
         op = Obj("op", cls=op_cls)
         bottom, top = mk_face("bottom"), mk_face("top")
         op.set("bottom_face", bottom)
         op.set("top_face", top)
         side = mk_angle("side.e0")
-        op.set("side_edges", [side] + [Obj(f"side.e{i}", cls=line_cls) for i in range(1, 4)])
+        side_spline = mk_spline("side.e1")
+        op.set("side_edges", [side, side_spline] + [Obj(f"side.e{i}", cls=line_cls) for i in range(2, 4)])
         op.set("side_projects", [None] * 4)
         op.set("side_patches", [None] * 4)
         b0, t0 = bottom.get("points")[0], top.get("points")[0]
@@ -843,6 +883,12 @@ def arc_sense(repo: Repo) -> RuleRun:
                     ends = (fc.get("points")[j], fc.get("points")[(j + 1) % 4])
                     direction = 1 if ends == (f0, f1) else -1 if ends == (f1, f0) else 0
         _judge_sense(r, m, f"Operation.{kind}: edge of a face of the operation", kind, det, direction, *axis_sign(fedge, kind))
+        where = [j for j, e in enumerate(op.get("side_edges")) if e is side_spline]
+        r.require(len(where) == 1, f"Operation.{kind}: the spline side edge is in {len(where)} slots afterwards")
+        j = where[0]
+        ends = (op.get("bottom_face").get("points")[j]._name, op.get("top_face").get("points")[j]._name)
+        direction = 1 if ends == ("bottom.p1", "top.p1") else -1 if ends == ("top.p1", "bottom.p1") else 0
+        _judge_order(r, m, f"Operation.{kind}: spline side edge", kind, direction, *spline_order(side_spline, kind))
     return r
 
 
@@ -853,6 +899,22 @@ def _run_sense(ev, m, args):
         raise AnalysisError(f"{m.qualname}: raised {err.exc_name} on the arc-sense model") from err
     except NotEvaluable as err:
         raise AnalysisError(f"{m.qualname} not evaluable on the arc-sense model: {err}") from err
+
+
+def _judge_order(r, m, label, kind, direction, order, why):
+    key = label.split(":")[0].strip() + ":" + label.split(":")[1].strip().replace(" ", "-")
+    if order is None:
+        raise AnalysisError(f"{label}: {why}")
+    r.require(direction != 0, f"{label}: the edge does not connect its two original end points afterwards")
+    r.check(
+        order * direction == 1,
+        m,
+        f"{label}: points listed {'forwards' if order > 0 else 'backwards'}, edge traversed {'forwards' if direction > 0 else 'backwards'}",
+        f"{label}: after {kind}() the edge runs {'from its original first to its second' if direction > 0 else 'from its original SECOND to its FIRST'} end point while its points are listed in the "
+        f"{'original' if order > 0 else 'reversed'} order: a spline / polyLine lists its points from the first to the second vertex of the edge, so it is written tangled (running to the far end and back)",
+        m.node,
+        key=key,
+    )
 
 
 def _judge_sense(r, m, label, kind, det, direction, sign, why):
